@@ -8,7 +8,8 @@ from collections import Counter
 import vlib
 from vlib import coq_N, coq_bool, coq_list, coq_option
 
-HEADER = ('From Teleport Require Import Base.Bytes Base.Outcome Model.EvmProof Model.EvmProofCheck.\n'
+HEADER = ('From Teleport Require Import Base.Bytes Base.Outcome Model.EvmProof Model.EvmProofCheck Model.EvmProofMpt '
+          'Model.EvmProofTrie Model.EvmProofMptCheck.\n'
           'Local Open Scope N_scope.\n')
 SHARD = 50
 CORPUS = os.path.join(vlib.ROOT, 'harness', 'cmd', 'c08', 'corpus.jsonl')
@@ -20,8 +21,18 @@ KINDS = {1: 'model and code disagree on the outcome class (ok / error / panic) o
          22: 'accepted although the world committed at the proof height does not hold this value at this slot of the '
              'configured contract',
          23: 'honest proof of a held value (same revision as the head, confirmations passed) not accepted',
-         24: 'accepted although the decoded proof record does not carry exactly one storage proof'}
-COPY = {0: 'eth', 1: 'bsc'}
+         24: 'accepted although the decoded proof record does not carry exactly one storage proof',
+         5: 'the Gallina transcription of trie.VerifyProof (Model/EvmProofMpt.v) and go-ethereum disagree on a node list',
+         6: 'the model with the Gallina MPT verifier in place of the trie.VerifyProof table disagrees with the outcome class '
+            'of the verification call',
+         7: 'the Gallina MPT walk ran out of rounds (the Go loop would not have ended)',
+         8: 'a proof node has no Keccak entry in the tables',
+         10: 'a complete geth node database does not resolve the key (Gallina walk) to what geth\'s Trie.TryGet finds',
+         11: 'a node of a complete geth node database is not the re-encoding (Model/EvmProofTrie.v enc_node) of its decoding',
+         41: 'BSC GetDelayBlock differs from the model', 42: 'BSC GetDelayTime differs from the model',
+         43: 'ETH GetDelayBlock differs from the model', 44: 'ETH GetDelayTime differs from the model',
+         45: 'BSC GetDelayBlock is not the least number of blocks exceeding half of the validator count'}
+COPY = {0: 'eth', 1: 'bsc', 2: 'mpt-table'}
 
 
 def hb(h):
@@ -100,7 +111,7 @@ def case_term(r, sh=None):
     mpt = coq_list(['(%s, %s, %s, %s)' % (hb(e['root']), hb(e['key']), coq_list([nd(n) for n in e['nodes']]),
                                           coq_option(None if e['res'] is None else hb(e['res'])))
                     for e in r['mpt']])
-    kec = coq_list(['(%s, %s)' % (hb(a), hb(b)) for a, b in r['keccak']])
+    kec = coq_list(['(%s, %s)' % (nd(a), hb(b)) for a, b in r['keccak']])
     proof = None if sp['proof'] is None else vlib.coq_literal_bytes(proof_token(sp['proof']))
     gt = r['gt']
     return ('{| c_ack := %s; c_head := %s; c_eth_delay := %s; c_bsc_vals := %s; c_contract := %s; c_store := %s; '
@@ -125,8 +136,16 @@ def coq_eval(workdir, name, defs, queries, timeout=1800):
         text += 'Goal True. idtac "@@BEGIN %s". Abort.\nPrint %s.\nGoal True. idtac "@@END". Abort.\n' % (q, q)
     os.makedirs(workdir, exist_ok=True)
     open(os.path.join(workdir, name), 'w').write(text)
-    rc, out = vlib.sh(['coqc', '-noglob', '-Q', vlib.THEORIES, 'Teleport', '-w',
-                       '-deprecated-syntactic-definition,-notation-overridden', name], cwd=workdir, timeout=timeout)
+    for attempt in range(4):
+        rc, out = vlib.sh(['coqc', '-noglob', '-Q', vlib.THEORIES, 'Teleport', '-w',
+                           '-deprecated-syntactic-definition,-notation-overridden', name], cwd=workdir, timeout=timeout)
+        # a coqc killed from outside (the kernel's OOM killer on a loaded machine: negative return code = signal, no
+        # Coq error message) says nothing about the case: run the same file again
+        if rc >= 0 or 'Error' in out:
+            break
+        import time as _t
+        vlib.log('[C08] coqc %s killed by signal %d, retrying' % (name, -rc))
+        _t.sleep(5 + 10 * attempt)
     res = {'_rc': rc, '_out': out}
     for q, _ in queries:
         m = re.search(r'@@BEGIN %s\n(.*?)@@END' % re.escape(q), out, flags=re.S)
@@ -152,16 +171,18 @@ def evaluate(workdir, results, tag='cases'):
         terms = [case_term(r, shd) for r in sh]  # mpt tables are rendered before the records: see case_term
         defs = '\n'.join(shd.defs) + '\nDefinition cases : list ecase := %s.\n' % coq_list(terms)
         res = coq_eval(workdir, '%s_%d.v' % (tag, i), defs,
-                       [('M', 'mismatches cases'), ('F', 'monitor_failures cases'), ('C', 'model_classes cases')])
+                       [('M', 'mismatches cases'), ('F', 'monitor_failures cases'), ('C', 'model_classes cases'),
+                        ('T', 'mpt_table_mismatches cases')])
         m = vlib.parse_nat_tuples(res.get('M'), 3)
         f = vlib.parse_nat_tuples(res.get('F'), 3)
         c = vlib.parse_nat_tuples(res.get('C'), 2)
-        if res['_rc'] != 0 or m is None or f is None or c is None or len(c) != len(sh):
+        t = vlib.parse_nat_tuples(res.get('T'), 3)
+        if res['_rc'] != 0 or m is None or f is None or c is None or t is None or len(c) != len(sh):
             return ('error', res['_out'][-3000:])
         off = i * SHARD
-        return ([(h + off, s, k) for h, s, k in m], [(h + off, s, k) for h, s, k in f], c)
+        return ([(h + off, s, k) for h, s, k in m + t], [(h + off, s, k) for h, s, k in f], c)
 
-    outs = vlib.parallel(one, list(enumerate(shards)), workers=16)
+    outs = vlib.parallel(one, list(enumerate(shards)), workers=12)
     mm, ff, cc = [], [], []
     for o in outs:
         if o[0] == 'error':
@@ -170,6 +191,67 @@ def evaluate(workdir, results, tag='cases'):
         ff += o[1]
         cc += o[2]
     return mm, ff, cc
+
+
+def mcase_term(r):
+    return ('{| m_root := %s; m_key := %s; m_nodes := %s; m_res := %s; m_panic := %s; m_keccak := %s; m_tryget := %s |}' % (
+        hb(r['root']), hb(r['key']), coq_list([hb(n) for n in r['nodes']]),
+        coq_option(None if r['res'] is None else hb(r['res'])), coq_bool(r['panic']),
+        coq_list(['(%s, %s)' % (hb(a), hb(b)) for a, b in r['keccak']]),
+        coq_option(hb(r['tryget']) if r.get('has_tryget') else None)))
+
+
+MSHARD = 250
+
+
+def evaluate_mpt(workdir, mcases, tag='mpt'):
+    """trie.VerifyProof called directly vs the Gallina transcription: (mismatches, verdicts) or (None, log)"""
+    shards = [mcases[i:i + MSHARD] for i in range(0, len(mcases), MSHARD)]
+
+    def one(ix):
+        i, sh = ix
+        defs = 'Definition cases : list mcase := %s.\n' % coq_list([mcase_term(r) for r in sh])
+        res = coq_eval(workdir, '%s_%d.v' % (tag, i), defs, [('M', 'mpt_mismatches cases'), ('V', 'mpt_verdicts cases')])
+        m = vlib.parse_nat_tuples(res.get('M'), 3)
+        v = vlib.parse_nat_tuples(res.get('V'), 1)
+        if res['_rc'] != 0 or m is None or v is None or len(v) != len(sh):
+            return ('error', res['_out'][-3000:])
+        return ([(h + i * MSHARD, s, k) for h, s, k in m], [x[0] if isinstance(x, (tuple, list)) else x for x in v])
+
+    outs = vlib.parallel(one, list(enumerate(shards)), workers=4)
+    mm, vv = [], []
+    for o in outs:
+        if o[0] == 'error':
+            return None, o[1]
+        mm += o[0]
+        vv += o[1]
+    return mm, vv
+
+
+DSHARD = 2500
+
+
+def evaluate_delay(workdir, dcases, tag='delay'):
+    mm = []
+    for i in range(0, len(dcases), DSHARD):
+        m, log = evaluate_delay_shard(workdir, dcases[i:i + DSHARD], '%s_%d' % (tag, i // DSHARD))
+        if m is None:
+            return None, log
+        mm += [(h + i, s, k) for h, s, k in m]
+    return mm, None
+
+
+def evaluate_delay_shard(workdir, dcases, tag):
+    terms = ['{| d_nvals := %s; d_block_interval := %s; d_eth_block_delay := %s; d_eth_time_delay := %s; '
+             'd_bsc_delay_block := %s; d_bsc_delay_time := %s; d_eth_delay_block_obs := %s; d_eth_delay_time_obs := %s |}' % tuple(
+                 coq_N(d[k]) for k in ('nvals', 'block_interval', 'eth_block_delay', 'eth_time_delay', 'bsc_delay_block',
+                                       'bsc_delay_time', 'eth_delay_block', 'eth_delay_time')) for d in dcases]
+    res = coq_eval(workdir, tag + '.v', 'Definition cases : list dcase := %s.\n' % coq_list(terms),
+                   [('M', 'delay_mismatches cases')])
+    m = vlib.parse_nat_tuples(res.get('M'), 3)
+    if res['_rc'] != 0 or m is None:
+        return None, res['_out'][-3000:]
+    return m, None
 
 
 def run_specs(workdir, specs, tag):
@@ -222,10 +304,36 @@ def shrink(workdir, spec, pred):
     return best
 
 
+BRANCHES = [('client state height < proof height', 'head_gate'), ('proof height revision', 'revision_gate'),
+            ('proof cannot be empty', 'nil_proof'), ('failed to unmarshal proof', 'json_error'),
+            ('consensus state does not exist', 'cons_missing'), ('unmarshal error', 'cons_undecodable'),
+            ('invalid consensus type', 'cons_other_type'), ('delay block', 'delay_gate'),
+            ('verifyMerkleProof, contract address', 'address_mismatch'),
+            ('verifyMerkleProof, verify account proof error', 'account_proof_error'),
+            ('verifyMerkleProof, verify account proof failed', 'account_rlp_mismatch'),
+            ('verifyMerkleProof, invalid storage proof format', 'storage_proof_count'),
+            ('verifyMerkleProof, storageKey', 'storage_key_mismatch'),
+            ('verifyMerkleProof, verify storage proof error', 'storage_proof_error'),
+            ('verifyMerkleProof, verify storage result failed', 'value_mismatch'),
+            ('panic: cannot compare against invalid height', 'panic_nil_height'), ('panic: runtime error', 'panic_nil_storage_proof')]
+
+
+def branch_of(err):
+    """which return statement of the real code a case ended in (statistics only: read off the error text, never compared)"""
+    if not err:
+        return 'accepted'
+    for prefix, name in BRANCHES:
+        if err.startswith(prefix):
+            return name
+    return 'other'
+
+
 def distribution(results, cc):
     dist = Counter()
     for r, c in zip(results, cc):
         sp = r['spec']
+        dist['eth_branch_' + branch_of(r.get('eth_err'))] += 1
+        dist['bsc_branch_' + branch_of(r.get('bsc_err'))] += 1
         dist['eth_' + {0: 'accepted', 1: 'rejected', 2: 'panic'}[r['eth_class']]] += 1
         dist['bsc_' + {0: 'accepted', 1: 'rejected', 2: 'panic'}[r['bsc_class']]] += 1
         for f in sp['family'].split('+'):
@@ -253,18 +361,35 @@ def check(run):
     import time
     t0 = time.time()
     run.proof_stage()
+    if not run.quick():
+        run.coqchk_stage()
     vlib.log('[C08] proof stage %.1fs' % (time.time() - t0))
     ok, out = vlib.build_harness(['c08'])
     if not ok:
         run.violation(dict(kind='harness-build-failed', log=out[-3000:],
                            explanation='the correspondence harness no longer builds against the tree'), no_input=True)
         return run.finish()
-    n = run.budget(500, 8000)
+    n = run.budget(500, 6000)
     outp = os.path.join(run.work, 'out.jsonl')
     rc, o = vlib.run_harness('c08', ['-seed', run.seed, '-n', n, '-out', outp])
     if rc != 0:
         run.violation(dict(kind='harness-crashed', log=o[-3000:]), no_input=True)
         return run.finish()
+    # --- go-ethereum's trie.VerifyProof called directly vs its Gallina transcription (directed decoder-quirk corpus
+    #     first, then crafted node trees and geth-built tries), and the delay getters of both copies
+    mout = os.path.join(run.work, 'mpt.jsonl')
+    dout = os.path.join(run.work, 'delay.jsonl')
+    rc1, o1 = vlib.run_harness('c08', ['-mode', 'mpt', '-seed', run.seed, '-n', run.budget(900, 20000), '-out', mout])
+    rc2, o2 = vlib.run_harness('c08', ['-mode', 'delay', '-seed', run.seed, '-n', run.budget(600, 10000), '-out', dout])
+    if rc1 != 0 or rc2 != 0:
+        run.violation(dict(kind='harness-crashed', log=(o1 + o2)[-3000:]), no_input=True)
+        return run.finish()
+    mcases, dcases = vlib.read_jsonl(mout), vlib.read_jsonl(dout)
+    from concurrent.futures import ThreadPoolExecutor
+    side = ThreadPoolExecutor(max_workers=2)
+    fut_m = side.submit(evaluate_mpt, run.work, mcases)
+    fut_d = side.submit(evaluate_delay, run.work, dcases)
+
     results = []
     if os.path.exists(CORPUS):  # witnesses of past / known findings run first
         cs = run_specs(run.work, vlib.read_jsonl(CORPUS), 'corpus')
@@ -280,26 +405,60 @@ def check(run):
     if mm is None:
         run.violation(dict(kind='coq-evaluation-failed', log=ff), no_input=True)
         return run.finish()
+    mpm, mpv = fut_m.result()
+    dm, dlog = fut_d.result()
+    vlib.log('[C08] MPT / delay evaluation done at %.1fs (%d + %d cases)' % (time.time() - t0, len(mcases), len(dcases)))
+    if mpm is None or dm is None:
+        run.violation(dict(kind='coq-evaluation-failed', log=mpv if mpm is None else dlog), no_input=True)
+        return run.finish()
+    mdist = Counter()
+    for r, v in zip(mcases, mpv):
+        base = r['family'].split('+')[0].split(':')
+        fam = base[0] + (':' + base[1] if base[0] == 'geth-trie' else '')
+        for mut in r['family'].split('+')[1:]:
+            mdist['mpt_listmutation_' + mut] += 1
+        mdist['mpt_%s_%s' % (fam, {0: 'value', 1: 'absent', 2: 'error', 3: 'panic', 4: 'loop'}[v])] += 1
+        if r['family'].startswith('crafted') or r['family'].startswith('directed'):
+            for q in r['family'].split('+')[0].split(':')[1:]:
+                mdist['mpt_quirk_' + q] += 1
+        if r['panic']:
+            mdist['mpt_go_panic'] += 1
+    mdist['delay_cases'] = len(dcases)
+    mdist['delay_max_validators'] = max([d['nvals'] for d in dcases] or [0])
 
     nontrivial = set(nontrivial_signature(r) for r in results)
+    nontrivial |= set(json.dumps(['mpt', r['family'], v]) for r, v in zip(mcases, mpv))
+    dd = distribution(results, cc)
+    dd.update(mdist)
     run.coverage.update(dict(
-        evaluations=2 * len(results), cases=len(results), corpus_cases=ncorpus, distinct_nontrivial=len(nontrivial),
-        rule='one case = one VerifyPacketCommitment / VerifyPacketAcknowledgement call executed on BOTH real copies '
-             '(eth, bsc) and on the model (2 evaluations); distinct = distinct (generator family incl. mutations, '
-             'outcome classes of both copies, path kind)',
-        distribution=distribution(results, cc), model_mismatches=len(mm), monitor_failures=len(ff),
-        samples=[dict(results[ncorpus]['spec'], proof='(%d bytes)' % (len(results[ncorpus]['spec']['proof'] or '') // 2),
-                      worlds='(omitted)')] if len(results) > ncorpus else []))
+        evaluations=2 * len(results) + len(mcases) + len(dcases), cases=len(results), corpus_cases=ncorpus,
+        mpt_cases=len(mcases), delay_cases=len(dcases), distinct_nontrivial=len(nontrivial),
+        rule='one verification case = one VerifyPacketCommitment / VerifyPacketAcknowledgement call executed on BOTH real '
+             'copies (eth, bsc) and on the model (2 evaluations; the model is evaluated twice more with the Gallina MPT '
+             'verifier in place of the trie.VerifyProof table, not counted); one MPT case = one trie.VerifyProof call vs '
+             'the Gallina verifier; one delay case = the four getters; distinct = distinct (generator family incl. '
+             'mutations, outcome classes of both copies, path kind) + distinct (MPT family incl. quirks, verdict)',
+        distribution=dd, model_mismatches=len(mm) + len(mpm) + len([x for x in dm if x[2] != 45]),
+        monitor_failures=len(ff) + len([x for x in dm if x[2] == 45]),
+        samples=([dict(results[ncorpus]['spec'], proof='(%d bytes)' % (len(results[ncorpus]['spec']['proof'] or '') // 2),
+                       worlds='(omitted)')] if len(results) > ncorpus else []) +
+                [dict(kind='trie.VerifyProof case', **{k: mc[k] for k in ('id', 'family', 'root', 'key', 'nodes', 'res', 'panic')})
+                 for mc in mcases[:1] + mcases[-1:]] +
+                [dict(kind='delay getters case', **dc) for dc in dcases[7:8]]))
     run.coverage['trusted_base'] += [
         'hand-written model Model/EvmProof.v tied to both client_state.go copies by this differential run (generator '
         'bounds what it sees)',
-        'oracles tabulated from the real functions: crypto.Keccak256, trie.VerifyProof (go-ethereum v1.10.16), '
-        'encoding/json Unmarshal into the Proof struct, protobuf decoding of stored consensus states',
+        'oracles tabulated from the real functions: crypto.Keccak256, encoding/json Unmarshal into the Proof struct, '
+        'protobuf decoding of stored consensus states; trie.VerifyProof (go-ethereum v1.10.16) is BOTH tabulated (model '
+        'evaluated on the table) and transcribed (Model/EvmProofMpt.v, evaluated on the same node lists and compared)',
         'ground truth of the monitor: go-ethereum trie.TryGet on the harness-built tries, rlp.Split + Hash.SetBytes '
         '(geth state reader)']
     run.assumptions += [
-        'mpt_sound (Section hypothesis of the soundness theorems): a value returned by trie.VerifyProof for (root, key) '
-        'is the value of key in every trie committed by root (keccak collision resistance)',
+        'Keccak: no assumption is made -- the *_mpt theorems end in "... or an explicit Keccak collision" (two different '
+        'byte strings with the same hash); the older theorems keep the premise mpt_sound for an abstract trie.VerifyProof '
+        'oracle, which C08_mpt_sound_of_no_collision discharges for the Gallina verifier when no collision exists',
+        'a world is what geth reads (Trie.TryGet) from a node database that resolves every key under the root '
+        '(commits_db); that the EVM state trie of the counterparty chain is such a database is not part of the model',
         'callers pass a non-nil clienttypes.Height (a nil interface panics in Height.Compare)',
         'revision numbers: the numeric reading of the head / delay gates needs proof revision = head revision '
         '(see Refuted/C08_refuted.v)']
@@ -324,6 +483,19 @@ def check(run):
                       name='replay_c%d_%s.json' % (h, COPY[s]))
         if len(run.violations) >= 3:
             break
+    for h, s, k in [x for x in dm if x[2] == 45][:1]:  # BSC confirmation depth is not a majority of the validators
+        run.violation(dict(kind='monitor', code=k, what=KINDS[k], delay_case=dcases[h]), name='replay_delay_%d.json' % h)
+    if not run.violations:
+        for h, s, k in [x for x in dm if x[2] != 45][:1]:
+            run.violation(dict(kind='correspondence', code=k, what=KINDS[k], delay_case=dcases[h],
+                               broken='correspondence Model.EvmProof.delay_block / delay_time <-> GetDelayBlock / GetDelayTime'),
+                          name='replay_delay_%d.json' % h, no_input=True)
+        for h, s, k in mpm[:1]:
+            run.violation(dict(kind='correspondence', code=k, what=KINDS[k], mpt_case=mcases[h],
+                               broken='correspondence Model.EvmProofMpt.mpt_verify_g <-> go-ethereum trie.VerifyProof',
+                               explanation='the *_mpt theorems of Props/C08.v are about the Gallina verifier; it no longer '
+                                           'describes the library the clients call'),
+                          name='replay_mpt_%d.json' % h, no_input=True)
     if not run.violations:
         for h, s, k in mm[:1]:  # model and code disagree, property monitor silent
             r = results[h]
@@ -343,17 +515,32 @@ def check(run):
                           name='replay_corr_c%d.json' % h, no_input=True)
         if not run.proof_ok():
             run.proof_violation()
-    if not run.quick() and not run.violations:
-        # independent re-check of the compiled proofs (kernel re-typechecking of the .vo closure, axiom summary)
-        rc, out = vlib.sh('coqchk -silent -o -Q theories Teleport Teleport.Props.C08 Teleport.Refuted.C08_refuted',
-                          cwd=vlib.COQ, timeout=1500)
-        okchk = rc == 0 and 'Axioms: <none>' in ' '.join(out.split())
-        run.coverage['coqchk'] = 'ok: axioms <none>' if okchk else 'FAILED: ' + out[-600:]
-        if not okchk:
-            run.violation(dict(kind='coqchk-failed', log=out[-3000:],
-                               explanation='coqchk does not validate the compiled proofs of C08 (or reports axioms)'),
-                          name='replay_coqchk.json', no_input=True)
     return run.finish()
+
+
+def gen_witness():
+    """regenerates coq/theories/Model/EvmProofMptWitness.v from corpus case 900001 (run on the real code): the honest
+    witness WITH the Keccak hashes of its proof nodes, for the non-vacuity example of the *_mpt theorems.
+    usage: cd /verif && python3 -c "import sys; sys.path.insert(0,'tools/py'); import props.c08 as m; m.gen_witness()" """
+    work = os.path.join(vlib.ROOT, 'work', 'C08_witness')
+    os.makedirs(work, exist_ok=True)
+    ok, out = vlib.build_harness(['c08'])
+    assert ok, out
+    spec = [x for x in vlib.read_jsonl(CORPUS) if x['id'] == 900001]
+    rs = run_specs(work, spec, 'witness')
+    assert rs and rs[0]['eth_class'] == 0 and rs[0]['bsc_class'] == 0
+    text = ('(** The honest witness of Model/EvmProofWitness.v (corpus case 900001) recorded again WITH the Keccak hash of every\n'
+            '    proof node in [c_keccak], so that the Gallina MPT verifier can be evaluated on it.  Generated by\n'
+            '    tools/py/props/c08.py [gen_witness] from a run of the real code; tables = real crypto.Keccak256 /\n'
+            '    trie.VerifyProof / encoding/json results. *)\n'
+            'From Teleport Require Import Base.Bytes Base.Outcome Model.EvmProof Model.EvmProofCheck.\n'
+            'Local Open Scope N_scope.\n\n'
+            'Definition witness_honest_mpt : ecase :=\n%s.\n' % case_term(rs[0]))
+    import textwrap
+    text = '\n'.join(textwrap.fill(l, 118, break_long_words=False, break_on_hyphens=False, subsequent_indent='  ')
+                     if len(l) > 118 else l for l in text.split('\n')) + '\n'
+    open(os.path.join(vlib.THEORIES, 'Model', 'EvmProofMptWitness.v'), 'w').write(text)
+    print('written', len(text))
 
 
 def replay(path):
@@ -361,6 +548,23 @@ def replay(path):
     work = os.path.join(vlib.ROOT, 'work', 'C08_replay')
     os.makedirs(work, exist_ok=True)
     ok, out = vlib.build_harness(['c08'])
+    if ok and ('mpt_case' in rp or 'delay_case' in rp):
+        mode, key = ('mpt', 'mpt_case') if 'mpt_case' in rp else ('delay', 'delay_case')
+        inp, outp = os.path.join(work, 'replay_in.jsonl'), os.path.join(work, 'replay_out.jsonl')
+        vlib.write_jsonl(inp, [rp[key]])
+        rc, o = vlib.run_harness('c08', ['-mode', mode, '-in', inp, '-out', outp])
+        rs = vlib.read_jsonl(outp) if rc == 0 else []
+        if not rs:
+            print('cannot replay: harness failed')
+            return 2
+        mm, extra = evaluate_mpt(work, rs, 'replay_mpt') if mode == 'mpt' else evaluate_delay(work, rs, 'replay_delay')
+        print('observed:', json.dumps(rs[0])[:600])
+        print('mismatches / failures:', mm)
+        if mm is None or mm:
+            print('VIOLATION property=C08 replay=%s' % path)
+            return 1
+        print('replay passes on the current tree')
+        return 0
     if not ok or 'spec' not in rp:
         print('cannot replay: %s' % (out[-500:] if not ok else 'no spec in replay file (%s)' % rp.get('kind')))
         return 2
